@@ -13,7 +13,8 @@ StartOpts == {[dl |-> d, stop |-> KillNow, nb |-> TRUE, rin |-> 0, rout |-> 0, r
                term |-> 0, self |-> TRUE, prog |-> "/bin/c"] : d \in DlOpts, re \in {0, R_PIPE}}
              \cup {[dl |-> 0, stop |-> KillNow, nb |-> TRUE, rin |-> 0, rout |-> 0, rerr |-> 0, input |-> -1,
                     term |-> 0, self |-> TRUE, prog |-> "/bin/c", fork |-> TRUE]}
-Srcs1 == {<<<<h, m>>>> : h \in {0, 1, 2}, m \in Masks}
+\* (18 = output + the deadline bit: the deadline bit is a legal interest and asks for nothing - in particular not for the exit event)
+Srcs1 == {<<<<h, m>>>> : h \in {0, 1, 2}, m \in Masks \cup {EV_OUT + EV_DEADLINE}}
 Srcs2 == {<<<<h, m>>, <<g, k>>>> : h \in {0, 1, 2}, g \in {0, 1, 2}, m \in Masks, k \in {EV_OUT + EV_EXIT}}
 Srcs3 == {<<<<h, EV_OUT + EV_EXIT>>, <<g, EV_OUT + EV_EXIT>>, <<f, EV_OUT + EV_EXIT>>>> : h \in {0, 1, 2}, g \in {0, 1, 2}, f \in {0, 1, 2}}
 Srcs == Srcs1 \cup (IF MaxSrc >= 2 THEN Srcs2 ELSE {}) \cup (IF MaxSrc >= 3 THEN Srcs3 ELSE {})
